@@ -4,8 +4,8 @@ import json, os
 import core
 
 EXTRACTORS = ["alph_confirm", "alph_poll", "alph_filters", "alph_tokeninfo", "alph_reobserve", "alph_process"]
-EXTRACTORS_C08 = ["alph_confirm", "alph_filters", "alph_tokeninfo", "alph_reobserve", "alph_process"]
-EXTRACTORS_C09 = ["alph_poll", "alph_filters", "alph_tokeninfo", "alph_process"]
+EXTRACTORS_C08 = ["alph_confirm", "alph_filters", "alph_tokeninfo", "alph_reobserve", "alph_process", "alph_pipeline", "alphconv"]
+EXTRACTORS_C09 = ["alph_poll", "alph_filters", "alph_tokeninfo", "alph_process", "alph_pipeline", "alphconv"]
 
 HDR = ("From Coq Require Import List ZArith Bool.\n"
        "From WH Require Import lib.Wire gen.Extracted model.AlphWatcher.\n"
@@ -397,3 +397,266 @@ def coverage(ctx, rows):
     fr = getattr(ctx, "free_runs", [])
     ctx.cov["free_runs_of_the_real_Run"] = {"scenarios": len(fr), "events": sum(len(r["events"]) for r in fr), "events_that_had_to_be_forwarded": sum(1 for r in fr for e in r["events"] if e["must"]),
                                             "forwarded": sum(len(r["forwarded"]) for r in fr), "count_requests": sum(r["count_requests"] for r in fr), "page_requests": sum(r["page_requests"] for r in fr)}
+
+
+# ================================================================== X2: the composed pipeline (model.AlphPipeline) on the histories of the "fields" family
+EXTRACTORS_PIPE = ["alph_pipeline", "alphconv"]
+
+PIPE_HDR = ("From Coq Require Import Uint63.\nFrom Coq Require Import Strings.String.\nFrom Coq Require Import List ZArith Bool Arith Strings.Byte.\n"
+            "From WH Require Import lib.Bytes lib.Wire gen.Extracted model.Vaa model.AlphPipeline.\n"
+            "Import ListNotations.\nOpen Scope Z_scope.\n"
+            "Definition FV (v : Z) (s : bytes) : C.val := if v =? 1 then C.VU256 (C.str \"U256\") s else if v =? 2 then C.VByteVec (C.str \"ByteVec\") s else C.VOther.\n"
+            "Definition XE (u b i : Z) (tx : bytes) (fs : list C.val) : xevent := {| x_uid := u; x_block := b; x_txid := tx; x_index := i; x_fields := fs |}.\n"
+            "Definition XE0 : xevent := XE 0 0 (-9) [] [].\n"
+            "Definition HX (ws : list Uint63.int) : bytes := C.hex_encode (B ws).\n"
+            "Definition TXI (n : Z) : bytes := C.hex_encode (be 28 31354 ++ be 4 n).\n"
+            "Definition H (t h : Z) : option W.header := Some {| W.h_ts := t; W.h_height := h |}.\n"
+            "Definition look {A} (d : A) (l : list A) (i : Z) : A := if i <? 0 then d else nth (Z.to_nat i) l d.\n"
+            "Definition tabf (ta : list (bytes * xmc_ans)) (id : bytes) : xmc_ans := match find (fun p => bytes_eqb (fst p) id) ta with Some p => snd p | None => XMcErr end.\n"
+            "(* the node's multicall answer for the token contract an event names (asked only for fitting attestation-shaped events) *)\n"
+            "Definition xtokof (ta : bytes -> xmc_ans) (e : xevent) : xmc_ans :=\n"
+            "  match conv e with Some w => match C.parse_attest_token (C.w_payload w) with C.COk t => ta (C.t_id t) | C.CErr _ => XMcErr end | None => XMcErr end.\n"
+            "Definition xpgf (pages : list (Z * xpage_ans)) (echo : bool) : nat -> Z -> xpage_ans := fun k s =>\n"
+            "  match nth_error pages k with Some (s0, a) => if s0 =? s then a else XPageErr | None => if echo then XPage [] s else XPageErr end.\n"
+            "Definition XTE (a : Z) (e : xevent) : xtevent := {| xt_addr := a; xt_ev := e |}.\n"
+            "Definition XRO (ch : Z) (tx : bytes) (st : option (option Z)) (evs : option (list xtevent)) (hd : Z -> option W.header) (ta : bytes -> xmc_ans) (mc : option bool) (ht : option Z) (now : Z) : xop :=\n"
+            "  XReobs {| xr_chain := ch; xr_txhash := tx; xr_status := st; xr_events := evs; xr_hd := hd;\n"
+            "            xr_tok := fun p => xtokof ta (xt_ev (look (XTE 0 XE0) (match evs with Some l => l | None => [] end) p)); xr_mc := mc; xr_height := ht; xr_now := now |}.\n"
+            "(* a forwarded message as the observer sees it: uid, H(emitter address), target chain, sequence, nonce, H(payload), level, seconds, nanoseconds, emitter chain, H(tx hash) *)\n"
+            "Definition xm := (Z * Z * Z * Z * Z * Z * Z * Z * Z * Z * Z)%type.\n"
+            "Definition digest (full : bool) (f : xfwd) : xm := let m := xf_pub f in\n"
+            "  if full then (x_uid (xf_ev f), hash_bytes (m_eaddr m), m_tchain m, m_seq m, m_nonce m, hash_bytes (m_payload m), m_cl m, m_ts m, m_tns m, m_echain m, hash_bytes (m_tx m))\n"
+            "  else (x_uid (xf_ev f), 0, 0, 0, 0, 0, 0, 0, 0, 0, 0).\n"
+            "Definition xm_eqb (a b : xm) : bool := let '(a0, a1, a2, a3, a4, a5, a6, a7, a8, a9, a10) := a in let '(b0, b1, b2, b3, b4, b5, b6, b7, b8, b9, b10) := b in\n"
+            "  (a0 =? b0) && (a1 =? b1) && (a2 =? b2) && (a3 =? b3) && (a4 =? b4) && (a5 =? b5) && (a6 =? b6) && (a7 =? b7) && (a8 =? b8) && (a9 =? b9) && (a10 =? b10).\n"
+            "Definition xcount (x : xm) (l : list xm) : nat := length (filter (xm_eqb x) l).\n"
+            "Definition xperm (a b : list xm) : bool := Nat.eqb (length a) (length b) && forallb (fun x => Nat.eqb (xcount x a) (xcount x b)) a.\n"
+            "Fixpoint list_eqb (a b : list Z) : bool := match a, b with [], [] => true | x :: s, y :: t => (x =? y) && list_eqb s t | _, _ => false end.\n"
+            "Definition opt (want got : Z) : bool := (want <? 0) || (want =? got).\n"
+            "Definition fcode (f : W.flag) : Z := match f with W.FNone => 0 | W.FFatal => 1 | W.FSpin => 2 | W.FPanic => 3 end.\n"
+            "(* expected observation of one step: flag code, forwarded messages (any order; None = not compared), full digests?, batch uids (in order), page requests, fromIndex, poller flag *)\n"
+            "Definition xexp := (Z * option (list xm) * bool * list Z * Z * Z * Z)%type.\n"
+            "Definition xout_ok (s : xstate) (o : xout) (x : xexp) : bool := let '(fl, fw, full, ba, nr, fr, en) := x in\n"
+            "  (fcode (xo_flag o) =? fl) && match fw with None => true | Some l => xperm (map (digest full) (xo_fwd o)) l end\n"
+            "  && list_eqb (map (fun u => x_uid (xu_ev u)) (xo_batch o)) ba && opt nr (Z.of_nat (xo_nreq o)) && opt fr (x_from s) && opt en (if x_enabled s then 1 else 0).\n"
+            "Fixpoint xchk (c : xcfg) (s : xstate) (ops : list xop) (xs : list xexp) : bool :=\n"
+            "  match ops, xs with [], [] => true | o :: t, x :: xt => let '(s', r) := xstep c s o in xout_ok s' r x && xchk c s' t xt | _, _ => false end.\n"
+            "Definition pcase := (xcfg * Z * list xop * list xexp)%type.\n")
+
+PIPE_OKDEF = "Definition ok (h : pcase) : bool := let '(c, from0, ops, xs) := h in xchk c (xinit from0) ops xs.\n"
+
+
+def gB(hexs):
+    return "(B %s)" % core.gbytes(hexs or "")
+
+
+import re as _re
+_HEXSTR = _re.compile(rb'^(?:[0-9a-f]{2}){8,}$')
+_TXID = _re.compile(rb'^0{52}7a7a([0-9a-f]{8})$')
+
+
+def gS(hexs):
+    """a string of the node's JSON (given as the hex of its bytes) as Gallina bytes; lower-case hex strings are shipped as the bytes
+    they denote and re-encoded inside Coq (half the literals), the simulated node's tx ids as their number"""
+    s = bytes.fromhex(hexs or "")
+    m = _TXID.match(s)
+    if m:
+        return "(TXI %d)" % int(m.group(1), 16)
+    if _HEXSTR.match(s):
+        return "(HX %s)" % core.gbytes(s.decode())
+    return gB(hexs)
+
+
+class PipeTr:
+    """one recorded history of the fields family as a case of model.AlphPipeline.
+    mode: 'full' = every field of every forwarded message; 'uid' = forwarded messages by uid, re-observation forwards not compared (C09)"""
+
+    def __init__(self, row, mode):
+        self.row, self.mode, self.skip = row, mode, None
+
+    def digest(self, m):
+        if self.mode != "full":
+            return "(%d, 0, 0, 0, 0, 0, 0, 0, 0, 0, 0)" % m["uid"]
+        return "(%d, %d, %d, %s, %d, %d, %d, %s, %d, %d, %d)" % (m["uid"], core.hash_bytes(m["eaddr"]), m["tchain"], m["seq"], m["nonce"], core.hash_bytes(m["payload"]), m["cl"],
+                                                                  z(m["secs"]), m["nsec"], m["echain"], core.hash_bytes(m["txhash"]))
+
+    def ans(self, t):
+        if "raw" not in t:
+            return "XMcErr"
+        rs = []
+        for c in t["raw"]:
+            if c is None:
+                rs.append("XFailed")
+            else:
+                rs.append("XOk %s" % core.glist("FV %d %s" % (v[0], gS(v[1])) for v in c))
+        return "XMcRes %s" % core.glist(rs)
+
+    def case(self):
+        row = self.row
+        full = self.mode == "full"
+        evs = {e["uid"]: e for e in row["events"]}
+        nmax = max(evs) if evs else 0
+        T = ["XE0"]
+        for u in range(1, nmax + 1):
+            if u not in evs:
+                T.append("XE0")
+                continue
+            e = evs[u]
+            T.append("XE %d %d %s %s %s" % (u, e["blk"], z(e["idx"]), gS(e["raw"]["txid"]), core.glist("FV %d %s" % (f[0], gS(f[1])) for f in e["raw"]["f"])))
+        TA = ["(%s, %s)" % (gB(t["idhex"]), self.ans(t)) for t in row["tokens"]]
+        blocks = {}
+        for s in row["steps"]:
+            for b in s.get("blocks", []):
+                blocks[b[0]] = b
+        bmax = max(blocks) if blocks else 0
+        HD = ["None"] + [("H %s %d" % (z(blocks[i][2]), blocks[i][3])) if i in blocks else "None" for i in range(1, bmax + 1)]
+        ops, xs = [], []
+        fb = "true" if full else "false"
+        for s in row["steps"]:
+            op = s["op"]
+            if s.get("res") == "stall":
+                self.skip = "stall"
+            if op == "poll":
+                pages = []
+                for p in s["pages"]:
+                    if "err" in p:
+                        pages.append("(%d, XPageErr)" % p["s"])
+                    else:
+                        pages.append("(%d, XPage (map ev %s) %d)" % (p["s"], core.glist(str(u) for u in p["u"]), p["n"]))
+                cnt = "None" if s["cnt"] is None else "(Some %d)" % s["cnt"]
+                ops.append("XPoll %s (xpgf %s %s) tok" % (cnt, core.glist(pages), "true" if s["res"] == "spin" else "false"))
+                fl = {"idle": 0, "batch": 0, "fatal": 1, "spin": 2, "panic": 3}.get(s["res"], 9)
+                ok = s["res"] in ("idle", "batch")
+                if s["cnt"] is not None and s["nreq"] > max(s["cnt"] - s["from"], 0) + 1:
+                    if s["res"] in ("batch", "spin") and self.mode == "uid":
+                        fl, ok = 2, False
+                    else:
+                        self.skip = "poll beyond its request bound"
+                xs.append("(%d, Some [], %s, %s, %s, %s, -1)" % (fl, fb, core.glist(str(u) for u in s["batch"]) if ok else "[]",
+                                                                z(s["nreq"]) if s["res"] == "batch" else "-1", z(s["newfrom"]) if ok else "-1"))
+            elif op == "deliver":
+                ops.append("XDeliver")
+                xs.append("(0, Some [], %s, [], -1, -1, %d)" % (fb, 1 if s["enabled"] else 0))
+            elif op == "tick":
+                bl = {b[0]: b for b in s["blocks"]}
+                if s["err"] == "mainchain":
+                    mc = "(fun _ => None)"
+                else:
+                    mc = "(look (@None bool) %s)" % core.glist(["None"] + [("Some true" if bl[i][1] else "Some false") if i in bl else "None" for i in range(1, bmax + 1)])
+                hd = "(fun _ => None)" if s["err"] == "header" else "hd"
+                ops.append("XTick %d %s %s %s" % (s["height"], z(s["lo"]), mc, hd))
+                fl = {"ok": 0, "fatal": 1, "panic": 3}.get(s["res"], 9)
+                xs.append("(%d, Some %s, %s, [], -1, -1, %s)" % (fl, core.glist(self.digest(m) for m in s["msgs"]), fb, ("1" if s["enabled"] else "0") if fl == 0 else "-1"))
+            elif op == "reobs":
+                if s["status"] is None:
+                    st = "None"
+                elif s["status"] == -1:
+                    st = "(Some None)"
+                else:
+                    st = "(Some (Some %d))" % s["status"]
+                ev = "None" if s["events"] is None else "(Some %s)" % core.glist("XTE %d (ev %d)" % (evs[u]["c"], u) for u in s["events"])
+                hd = "hd" if s["hderr"] < 0 else "(fun b => if b =? %d then None else hd b)" % s["hderr"]
+                mc = "None" if s["mc"] is None else ("(Some true)" if s["mc"] else "(Some false)")
+                ht = "None" if s["height"] is None else "(Some %d)" % s["height"]
+                ops.append("XRO %d %s %s %s %s ta %s %s %s" % (s["chain"], gB(s["txhash"]), st, ev, hd, mc, ht, z(s["lo"])))
+                fl = {"ok": 0, "panic": 3}.get(s["res"], 9)
+                fw = "None" if self.mode == "uid" else "(Some %s)" % core.glist(self.digest(m) for m in s["msgs"])
+                xs.append("(%d, %s, %s, [], -1, -1, -1)" % (fl, fw, fb))
+        return ("(let T := %s in let ev := look XE0 T in let ta := tabf %s in let hd := look (@None W.header) %s in\n"
+                "  let L := map ev %s in let tok := fun i => xtokof ta (look XE0 L i) in\n"
+                "  ({| xc_gov := 0; xc_bridge := %s; xc_mainnet := %s |}, %d, %s, %s))"
+                % (core.glist(T), core.glist(TA), core.glist(HD), core.glist(str(u) for u in row["log"]), gB(row["bridge"]),
+                   "true" if row["mainnet"] else "false", row["from0"], core.glist(ops), core.glist(xs)))
+
+
+def pipe_rows(rows):
+    return [r for r in rows if r.get("fam") == "fields" and "harness_panic" not in r]
+
+
+def pipe_compare(ctx, name, rows, mode):
+    """the composed model (model.AlphPipeline) replayed inside Coq on every history of the fields family: raw fields in, the
+    FULL forwarded messages (mode 'full') / batches and forwarded uids (mode 'uid') compared. Returns (#compared, bad rows)"""
+    usable, texts, skipped = [], {}, {}
+    for r in pipe_rows(rows):
+        if r.get("ambiguous"):
+            skipped["timing too close to a hold-time boundary"] = skipped.get("timing too close to a hold-time boundary", 0) + 1
+            continue
+        tr = PipeTr(r, mode)
+        t = tr.case()
+        if tr.skip:
+            skipped[tr.skip] = skipped.get(tr.skip, 0) + 1
+            continue
+        texts[r["id"]] = t
+        usable.append(r)
+    ctx.cov["pipeline_histories_not_compared"] = skipped
+    if not usable:
+        ctx.problem("correspondence", "go harness (alephium watcher)", "no history of the fields family in the trace")
+        return 0, None
+    bad = core.run_cases(ctx, name, usable, PIPE_HDR, "pcase", lambda r: texts[r["id"]], PIPE_OKDEF, weight=lambda r: len(texts[r["id"]]) // 40)
+    if bad is None:
+        return len(usable), None
+    return len(usable), [usable[i] for i in bad]
+
+
+def pipe_first_divergence(ctx, name, row, mode):
+    lo, hi = 0, len(row["steps"])
+    while lo < hi:
+        mid = (lo + hi + 1) // 2
+        r2 = dict(row, steps=row["steps"][:mid])
+        b = core.run_cases(ctx, name + "_div", [r2], PIPE_HDR, "pcase", lambda r: PipeTr(r, mode).case(), PIPE_OKDEF, nshards=1)
+        if b is None:
+            return None
+        if b:
+            hi = mid - 1
+        else:
+            lo = mid
+    return lo
+
+
+def pipe_replay(row, msg):
+    """the concrete history with the raw fields of every event and the full forwarded messages"""
+    def txt(h):
+        return bytes.fromhex(h).decode("utf-8", "backslashreplace")
+    evs = [{"uid": e["uid"], "block": e["blk"], "contract": e["c"], "index": e["idx"], "fits": e["conv"] is not None, "what": e.get("what"),
+            "fields": [{"variant": {1: "U256", 2: "ByteVec"}.get(f[0], "other"), "value": txt(f[1])} for f in e["raw"]["f"]]} for e in row["events"]]
+    return {"monitor": msg, "history_id": row["id"], "family": row["fam"], "mainnet": row["mainnet"], "from0": row["from0"], "bridge": row["bridge"],
+            "events": evs, "tokens": row["tokens"], "stream": row["log"], "steps": row["steps"]}
+
+
+def pipe_start(ctx, name, rows, mode):
+    """pipe_report in a thread of its own (its coqc shards run next to those of the abstract comparison); join with .join()"""
+    import threading, traceback
+
+    def work():
+        try:
+            pipe_report(ctx, name, rows, mode)
+        except Exception as e:
+            traceback.print_exc()
+            ctx.problem("machinery", "pipeline comparison", repr(e))
+    th = threading.Thread(target=work)
+    th.start()
+    return th
+
+
+def pipe_report(ctx, name, rows, mode):
+    """run pipe_compare, report mismatches, fill coverage"""
+    n, bad = pipe_compare(ctx, name, rows, mode)
+    pr = pipe_rows(rows)
+    from collections import Counter
+    ctx.cov["pipeline"] = {"histories": len(pr), "compared_with_composed_model": n, "mode": mode,
+                           "events_fitting": sum(1 for r in pr for e in r["events"] if e["conv"] is not None),
+                           "events_unfit": sum(1 for r in pr for e in r["events"] if e["conv"] is None),
+                           "unfit_classes": len({e.get("what") for r in pr for e in r["events"] if e["conv"] is None}),
+                           "messages_forwarded_full_compare": sum(len(s.get("msgs", [])) for r in pr for s in r["steps"]),
+                           "longest_payload": max([e["gt"]["payload_len"] for r in pr for e in r["events"] if "gt" in e] or [0]),
+                           "boundary_values_forwarded": dict(Counter(k for r in pr for s in r["steps"] for m in s.get("msgs", [])
+                                                                     for k in (("seq=2^64-1",) if m["seq"] == "18446744073709551615" else ()) +
+                                                                     (("target=65535",) if m["tchain"] == 65535 else ()) + (("level=255",) if m["cl"] == 255 else ())))}
+    if bad is None:
+        return
+    ctx.cov["pipeline"]["mismatches"] = len(bad)
+    for r in bad[:3]:
+        k = pipe_first_divergence(ctx, name, r, mode)
+        ctx.problem("correspondence", "composed model (AlphPipeline) differs from the watcher on history %d" % r["id"],
+                    "first diverging step %s: %s" % (k, str(r["steps"][k] if k is not None and k < len(r["steps"]) else "")[:500]),
+                    concrete=False, replay=pipe_replay(r, "composed model / implementation divergence at step %s" % k))
